@@ -287,6 +287,9 @@ struct Gs {
     labels: BTreeMap<String, String>,
     annotations: BTreeMap<String, String>,
     players: Option<(u32, u32)>,
+    /// a Go API server writes a nil slice or map as `null`, not as `[]` or by leaving the field out:
+    /// bit 0 = ports, bit 1 = lists / list values, bit 2 = counters
+    null_style: u8,
 }
 
 impl Gs {
@@ -323,9 +326,17 @@ impl Gs {
                     "ports".into(),
                     Value::Array(ports.iter().map(|(n, p)| json!({"name": n, "port": p})).collect()),
                 );
+            } else if self.null_style & 1 != 0 {
+                status.insert("ports".into(), Value::Null);
             }
             status.insert("nodeName".into(), json!("node-1"));
             status.insert("reservedUntil".into(), Value::Null);
+            if self.counters.is_empty() && self.null_style & 4 != 0 {
+                status.insert("counters".into(), Value::Null);
+            }
+            if self.lists.is_empty() && self.null_style & 2 != 0 {
+                status.insert("lists".into(), Value::Null);
+            }
             if !self.counters.is_empty() {
                 status.insert(
                     "counters".into(),
@@ -349,7 +360,7 @@ impl Gs {
                     Value::Object(
                         self.lists
                             .iter()
-                            .map(|(k, v)| (k.clone(), json!({"capacity": 16, "values": v})))
+                            .map(|(k, v)| (k.clone(), if v.is_empty() && self.null_style & 2 != 0 { json!({"capacity": 16, "values": null}) } else { json!({"capacity": 16, "values": v}) }))
                             .collect(),
                     ),
                 );
@@ -523,6 +534,7 @@ impl<'a> Generator<'a> {
             labels: BTreeMap::new(),
             annotations: BTreeMap::new(),
             players: None,
+            null_style: if self.rng.chance(1, 3) { 1 + self.rng.below(7) as u8 } else { 0 },
         };
         self.randomize_meta(&mut g);
         // servers that are not ready yet often have no address / ports; a few never get a status
